@@ -15,6 +15,8 @@ findings/C21.json): the counter used to be free-running (index -1 and a panic at
 slice used to be rebuilt from a Go map per message without sorting (no fixed order), and stopped routees
 were deleted from the map but still appended to the slice.
 -/
+import GoaktVerif.Gen.C21
+import GoaktVerif.Lemmas.FixedWidth
 import GoaktVerif.Model.C21
 import GoaktVerif.Spec.C21
 import GoaktVerif.Lemmas.C21
@@ -196,6 +198,38 @@ theorem fanout_only_routees (r : Router) (order : List Nat) (hperm : order.Perm 
   exact ⟨id, hperm.mem_iff.mp hin, by simp [tellTo, hrun]⟩
 
 /-! ### router: round-robin strategy -/
+
+/-- tie: the `case RoundRobinRouting` body regenerated from actor/router.go computes exactly the model's
+    index `cursor % len` and new cursor `(index + 1) % len` (see `rrRoute`), for every uint32 cursor value -/
+theorem rrStep_refines (len : Int64) (next : UInt32) (h0 : 0 < len.toInt) (h1 : len.toInt < 2 ^ 31) :
+    (Gen.C21.rrStep len next).1.toInt = ((next.toNat % len.toInt.toNat : Nat) : Int)
+    ∧ (Gen.C21.rrStep len next).2.toNat = (next.toNat % len.toInt.toNat + 1) % len.toInt.toNat := by
+  unfold Gen.C21.rrStep
+  have hs := GoaktVerif.FixedWidth.int64_toInt32_toUInt32_toNat len (by omega) (by omega)
+  have hidx : ((next % len.toInt32.toUInt32).toUInt64.toInt64).toInt = ((next.toNat % len.toInt.toNat : Nat) : Int) := by
+    rw [GoaktVerif.FixedWidth.uint32_toUInt64_toInt64_toInt, UInt32.toNat_mod, hs]
+  refine ⟨hidx, ?_⟩
+  generalize hI : (next % len.toInt32.toUInt32).toUInt64.toInt64 = idx at *
+  have hm : 0 < len.toInt.toNat := by omega
+  have hlt : next.toNat % len.toInt.toNat < len.toInt.toNat := Nat.mod_lt _ hm
+  have hadd : (idx + 1).toInt = idx.toInt + 1 := by
+    rw [Int64.toInt_add]
+    have : (1 : Int64).toInt = 1 := rfl
+    rw [this]
+    apply Int.bmod_eq_of_le <;> omega
+  have hmod : ((idx + 1) % len).toInt = (idx.toInt + 1) % len.toInt := by
+    rw [Int64.toInt_mod, hadd, Int.tmod_eq_emod_of_nonneg (by omega)]
+  have hnn : 0 ≤ ((idx + 1) % len).toInt := by rw [hmod]; exact Int.emod_nonneg _ (by omega)
+  have hub : ((idx + 1) % len).toInt < 2 ^ 32 := by
+    rw [hmod]; have := Int.emod_lt_of_pos (idx.toInt + 1) h0; omega
+  rw [GoaktVerif.FixedWidth.int64_toInt32_toUInt32_toNat _ hnn hub, hmod, hidx]
+  have e : len.toInt = ((len.toInt.toNat : Nat) : Int) := by omega
+  generalize len.toInt.toNat = L at *
+  rw [e]
+  have e2 : (((next.toNat % L : Nat) : Int) + 1) % (L : Int) = (((next.toNat % L + 1) % L : Nat) : Int) := by
+    simp only [Int.natCast_emod, Int.natCast_add, Int.natCast_one]
+  rw [e2, Int.toNat_natCast]
+
 
 /-- a well-formed router state: at least one routee (and fewer than 2^32), distinct routees, all
     running, uint32 cursor -/
